@@ -178,6 +178,8 @@ pub struct Checker {
     pub fails: Vec<Failure>,
     pub stats: Stats,
     pub step_no: usize,
+    /// index of the case operation being executed (reported as the failing step)
+    pub op_index: usize,
     /// set while a restore_cursor event was seen (C15 shadow must stop)
     pub saw_rc: bool,
     pub saw_ris: bool,
@@ -191,6 +193,7 @@ impl Checker {
             fails: Vec::new(),
             stats: Stats::default(),
             step_no: 0,
+            op_index: 0,
             saw_rc: false,
             saw_ris: false,
         }
@@ -206,7 +209,7 @@ impl Checker {
             self.fails.push(Failure {
                 property: prop.to_string(),
                 kind: kind.to_string(),
-                step: self.step_no,
+                step: self.op_index,
                 op: pretty_op(op),
                 detail,
                 sig: format!("{}:{}:{}", prop, kind, op.kind()),
@@ -453,6 +456,11 @@ impl Tee {
                                 &op,
                                 format!("expected vs actual: {}", d),
                             );
+                            if let Some(co) = component_owner(&d) {
+                                if co != op.owner() {
+                                    chk.fail(co, "model-mismatch", &op, format!("expected vs actual: {}", d));
+                                }
+                            }
                         }
                         // a same-size resize is a complete no-op, dirty included
                         if let Op::Resize(..) = op {
@@ -798,6 +806,14 @@ impl Term {
         }
     }
 
+    /// a terminal whose screen is a fork of an already reached state
+    pub fn from_screen(screen: Screen, chk: Option<Checker>) -> Term {
+        let mut t = Term::new(1, 1, chk);
+        lock(&t.tee).screen = screen;
+        t.rb_started = false;
+        t
+    }
+
     pub fn snap(&self) -> Snap {
         lock(&self.tee).snap()
     }
@@ -892,6 +908,28 @@ pub struct CaseResult {
     pub stats: Stats,
 }
 
+/// The property that owns a state component (used to charge "nothing else changes" breaches
+/// to the property whose statement defines how that component may change).
+pub fn component_owner(diff: &str) -> Option<&'static str> {
+    if diff.starts_with("tabstops") {
+        Some("C18")
+    } else if diff.starts_with("title") || diff.starts_with("icon_name") {
+        Some("C19")
+    } else if diff.starts_with("savepoint") {
+        Some("C14")
+    } else if diff.starts_with("charset") {
+        Some("C20")
+    } else if diff.starts_with("margins") {
+        Some("C06")
+    } else if diff.starts_with("modes") || diff.starts_with("cursor.hidden") || diff.starts_with("saved_columns") {
+        Some("C12")
+    } else if diff.starts_with("rendition") {
+        Some("C08")
+    } else {
+        None
+    }
+}
+
 fn owners_of(events: &[Op]) -> Vec<&'static str> {
     let mut v: Vec<&'static str> = vec!["C03"];
     for e in events {
@@ -906,15 +944,41 @@ fn owners_of(events: &[Op]) -> Vec<&'static str> {
 /// Run a history on the real implementation with the stepwise oracles of `cfg`.
 pub fn run_stepper(case: &Case, cfg: &Cfg) -> CaseResult {
     let mut term = Term::new(case.cols, case.lines, Some(Checker::new(cfg.clone())));
+    run_on(&mut term, case, 0, cfg)
+}
+
+/// Reach a state by running `ops` without any check; None if that panics.
+pub fn reach(cols: u32, lines: u32, ops: &[Op]) -> Option<Screen> {
+    let mut term = Term::new(cols, lines, None);
+    for op in ops {
+        if catch_unwind(AssertUnwindSafe(|| term.exec(op))).is_err() {
+            let _ = take_panic();
+            return None;
+        }
+    }
+    let t = lock(&term.tee);
+    Some(t.screen.clone())
+}
+
+/// Run `case.ops[from..]` with the stepwise oracles on a fork of an already reached state
+/// (the state `case.ops[..from]` leads to); step numbers refer to the whole case.
+pub fn run_forked(base: &Screen, case: &Case, from: usize, cfg: &Cfg) -> CaseResult {
+    let mut chk = Checker::new(cfg.clone());
+    chk.step_no = 0;
+    let mut term = Term::from_screen(base.clone(), Some(chk));
+    run_on(&mut term, case, from, cfg)
+}
+
+fn run_on(term: &mut Term, case: &Case, from: usize, cfg: &Cfg) -> CaseResult {
     // shadows
     let mut c10_shadow: Option<Term> =
-        if cfg.c10 { Some(Term::new(case.cols, case.lines, None)) } else { None };
+        if cfg.c10 && from == 0 { Some(Term::new(case.cols, case.lines, None)) } else { None };
     let mut c15_shadow: Option<Term> = None;
     let mut extra_fails: Vec<Failure> = Vec::new();
     let mut extra_stats = Stats::default();
     extra_stats.cases = 1;
 
-    'ops: for (i, op) in case.ops.iter().enumerate() {
+    'ops: for (i, op) in case.ops.iter().enumerate().skip(from) {
         let is_feed = op.is_feed();
         let pre = if is_feed && cfg.e2e && cfg.model { Some(term.snap()) } else { None };
         let events = term.ref_events(op);
@@ -924,6 +988,7 @@ pub fn run_stepper(case: &Case, cfg: &Cfg) -> CaseResult {
             if let Some(c) = t.chk.as_mut() {
                 c.saw_rc = false;
                 c.saw_ris = false;
+                c.op_index = i;
             }
         }
         let r = catch_unwind(AssertUnwindSafe(|| term.exec(op)));
@@ -972,10 +1037,14 @@ pub fn run_stepper(case: &Case, cfg: &Cfg) -> CaseResult {
                         let ev: Vec<String> = normalise(&events).iter().map(pretty_op).collect();
                         let owners: Vec<&str> = if cfg.e2e_all {
                             vec![cfg.target.as_str()]
-                        } else if d.starts_with("title") || d.starts_with("icon_name") {
-                            vec!["C03", "C19"]
                         } else {
-                            owners_of(&events)
+                            let mut o = owners_of(&events);
+                            if let Some(co) = component_owner(&d) {
+                                if !o.contains(&co) {
+                                    o.push(co);
+                                }
+                            }
+                            o
                         };
                         for o in owners {
                             if cfg.wants(o) {
